@@ -1149,3 +1149,10 @@ func directLine(line string) string {
 	}
 	return line
 }
+
+// rule addenda (rounds 9-12): what the evidence says about the coverage of a run
+func init() {
+	if p := registry["C02"]; p != nil {
+		p.Rule += " Every 6th rx case runs a second time as rxr: the same packets written to the in-memory transport and brought to the channel by the connection's reader goroutine (Conn.ReadFrom, Packet.ReadFrom); large-package cases (an EED of 65538 bytes + DONE, two such, in packets of 504 / 4088 / 65527 bytes); the rows of a result set are drawn by format and differ in their values."
+	}
+}
